@@ -19,12 +19,17 @@ CLAUSES = {
             "P05_close_decision_carried_out", "P05_input_not_left_unread", "P05_every_complete_request_answered",
             "P05_dead_connection_closed", "P05_no_producer_waits_at_quiescence"],
     "C11": ["P11_nothing_executed_after_a_closing_response", "P11_no_response_after_a_closing_response",
-            "P11_closing_response_is_followed_by_close", "P11_no_execution_after_close_decision"],
+            "P11_closing_response_is_followed_by_close", "P11_no_execution_after_close_decision",
+            "P11_nothing_executed_after_an_exchange_that_must_close"],
     "C12": ["P12_pending_output_bounded_by_watermark_plus_one_write", "P12_paused_producer_released",
-            "P04_wire_is_a_sequence_of_well_formed_responses", "P04_response_body_intact", "P04_responses_in_request_order"],
+            "P04_wire_is_a_sequence_of_well_formed_responses", "P04_response_body_intact", "P04_responses_in_request_order",
+            # the backlog of a draining client empties: a stuck byte count is output lost or invented by the buffers
+            "P05_no_livelock", "P05_no_undelivered_output_at_quiescence"],
     "C13": ["P13_torn_down_exactly_once", "P13_buffers_released", "P13_open_connection_stays_polled",
             "P13_other_connections_undisturbed", "P13_listener_and_trigger_survive", "P13_only_the_io_thread_tears_down",
-            "P13_no_thread_dies", "P13_io_loop_alive", "P13_workers_alive"],
+            "P13_no_thread_dies", "P13_io_loop_alive", "P13_workers_alive",
+            # a worker left waiting on a connection that is gone is lost to the pool just as a dead one
+            "P12_paused_producer_released"],
     "C19": ["P19_at_most_one_interim_per_request", "P19_interim_only_for_expecting_http11_request",
             "P19_waiting_client_is_never_left_waiting", "P19_request_carries_only_its_own_fields", "P19_request_body_intact",
             "P04_executed_in_arrival_order_exactly_once", "P04_responses_in_request_order",
@@ -108,7 +113,7 @@ def cfg_of(scn):
         for r in c.get("requests", []):
             kind = r.get("kind", "plain")
             spec = apps.get(str(r["k"]), {})
-            chunks = spec.get("chunks", [3])
+            chunks = [c for c in spec.get("chunks", [3]) if c != "sync"]
             total = sum(chunks)
             cl = spec.get("cl", "exact")
             rlen = total
@@ -120,8 +125,9 @@ def cfg_of(scn):
                 rlen = max(total - 1, 0)
             body = h_channel.request_bytes(r)[1]
             blen = r.get("blen", 3) if kind in ("body", "chunked", "expect", "expect10") else 0
+            mustclose = bool(kind in CLOSING_KINDS or cl == "larger" or spec.get("raise") or spec.get("raise_at") is not None)
             reqs.append({"v11": kind not in ("http10", "http10_ka", "expect10"), "expect": kind in ("expect", "expect_nobody", "expect10"),
-                         "refuse": kind in REFUSED_KINDS, "rlen": rlen, "blen": blen, "mark": chr(64 + r["k"])})
+                         "refuse": kind in REFUSED_KINDS, "rlen": rlen, "blen": blen, "mark": chr(64 + r["k"]), "mustclose": mustclose})
             if kind == "partial":
                 closed = True
             if not closed:
